@@ -62,6 +62,18 @@ def _same(a, b, cfg):
     return P.diff(_strip(a), _strip(b), cfg.ptol, cfg.phase_mod, "seq")
 
 
+def _dctx(ctx, seq):
+    """Context for a sequence decoded from the abstract representation: the document names qubits by
+    strings, so with non-string ids the decoded register is read by position (same order, ids as the
+    decoded register has them).  With the default string ids this is ctx itself."""
+    if ctx.qids is None:
+        return ctx
+    import copy
+    c = copy.copy(ctx)
+    c.qids = list(seq.register.qubit_ids)
+    return c
+
+
 def check_relations(cfg, run, ctx, proj):
     """Returns list of (pred, detail)."""
     out = []
@@ -86,7 +98,7 @@ def check_relations(cfg, run, ctx, proj):
             warnings.simplefilter("ignore")
             seq2 = Sequence.from_abstract_repr(txt)
         if not param:
-            why = _same(P.project(seq2, ctx), proj, cfg)
+            why = _same(P.project(seq2, _dctx(ctx, seq2)), proj, cfg)
             if why:
                 out.append(("C04.AbstractRoundTrip", {"clause": "differs", "why": why[:200]}))
                 out.append(("C09.RoundTripReproduces", {"clause": "abstract", "why": why[:200]}))
@@ -108,7 +120,7 @@ def check_relations(cfg, run, ctx, proj):
                     out.append(("C04.AbstractRoundTrip", {"clause": "build_outcome", "assignment": a,
                                                           "original": r1, "decoded": r2}))
                 elif r1 == "ok":
-                    why = _same(P.project(b2, ctx), P.project(b1, ctx), cfg)
+                    why = _same(P.project(b2, _dctx(ctx, b2)), P.project(b1, ctx), cfg)
                     if why:
                         out.append(("C04.AbstractRoundTrip", {"clause": "built_differs", "assignment": a,
                                                               "why": why[:200]}))
@@ -161,7 +173,7 @@ def check_relations(cfg, run, ctx, proj):
         try:
             with warnings.catch_warnings():
                 warnings.simplefilter("ignore")
-                sr = seq.switch_register(D.make_register(run.dev["nq"]))
+                sr = seq.switch_register(D.make_register(run.dev["nq"], ids=ctx.qids))
             why = _same(P.project(sr, ctx), proj, cfg)
             if why:
                 out.append(("C18.SwitchRegisterSame", {"clause": "differs", "why": why[:200]}))
